@@ -159,7 +159,13 @@ func (st *State) exec(fr *Frame, in ssa.Instruction) bool {
 		} else {
 			p = &Ptr{Kind: PObj, Root: r, RootT: et, T: et}
 			st.storePtr(p, e.zero(et), x.Pos())
-			if x.Comment != "" && x.Comment != "complit" && x.Comment != "varargs" && x.Comment != "slicelit" && !strings.HasPrefix(x.Comment, "new") {
+			isParam := false
+			for _, pp := range fr.fn.Params {
+				if pp.Name() == x.Comment {
+					isParam = true // in contracts a parameter denotes its entry value, also when its address is taken
+				}
+			}
+			if x.Comment != "" && !isParam && x.Comment != "complit" && x.Comment != "varargs" && x.Comment != "slicelit" && !strings.HasPrefix(x.Comment, "new") {
 				// the cell of a named local whose address is taken (captured by a closure): in contracts the name
 				// denotes the current content of the cell
 				if fr.specAddrs == nil {
@@ -397,6 +403,10 @@ func (st *State) doReturn(fr *Frame, res []Val, pos token.Pos) bool {
 	}
 	if fr.rangeRet != nil {
 		return st.rangeReturn(fr, res)
+	}
+	if fr.syncRet != nil {
+		*fr.syncRet = res // a callback run to completion by a model (runSync)
+		return true
 	}
 	caller := st.top()
 	if fr.isDefer {
@@ -646,7 +656,10 @@ func (st *State) convert(v Val, to types.Type, pos token.Pos) Val {
 		return Val{T: to, C: []string{wrapTerm(to, v.C[0])}}
 	case isInteger(from) && isFloat(to):
 		// exact when |x| < 2^53, else rounded
-		return Val{T: to, C: []string{st.roundFloat(fmt.Sprintf("(to_real %s)", v.C[0]))}}
+		// integers of magnitude up to 2^53 convert exactly
+		r := st.roundFloat(fmt.Sprintf("(to_real %s)", v.C[0]))
+		st.assume(fmt.Sprintf("(=> (and (<= (- 9007199254740992) %s) (<= %s 9007199254740992)) (= %s (to_real %s)))", v.C[0], v.C[0], r, v.C[0]))
+		return Val{T: to, C: []string{r}}
 	case isFloat(from) && isInteger(to):
 		r := st.fresh("f2i", SInt)
 		x := v.C[0]
@@ -1022,4 +1035,27 @@ func (e *Engine) unboxInst(callerT types.Type, v Val) Val {
 	}
 	e.unsupportedf("result of type parameter type %s received as %s", v.T, callerT)
 	return v
+}
+
+// runSync runs a statically known function value to completion inside a model and returns its results. The
+// callback must be straight-line code (no branching into several paths).
+func (st *State) runSync(fv *FuncV, args []Val, what string) []Val {
+	e := st.e
+	depth := len(st.frames)
+	pending := len(e.worklist)
+	nf := st.pushFrame(fv.Fn, args, fv.Bindings, nil)
+	var out []Val
+	nf.syncRet = &out
+	for steps := 0; len(st.frames) > depth && !st.dead; steps++ {
+		if steps > 10000 {
+			e.unsupportedf("%s: callback does not return", what)
+		}
+		if !st.step() {
+			break
+		}
+	}
+	if len(e.worklist) != pending || st.dead || len(st.frames) != depth {
+		e.unsupportedf("%s: callback is not straight-line code", what)
+	}
+	return out
 }
